@@ -445,5 +445,6 @@ pub fn run(tier: Tier, seed: u64) -> i32 {
         e1: false,
     };
     total.merge(crate::props::c13::api_use_part(&deadline));
+    total.merge(crate::props::c14::cloned_signal_list_part(&deadline));
     finish(meta, total, started)
 }
